@@ -1,6 +1,9 @@
 import Lean.Data.Json
 import Pysmi.Model.Index
 import Pysmi.Model.Compile
+import Pysmi.Model.Writer
+import Pysmi.Model.Borrower
+import Pysmi.Model.Searcher
 /-!
 Line-protocol driver: one JSON object per input line, one JSON value per output line.
 Imports only the import-free model files and `Lean.Data.Json`.
@@ -166,11 +169,133 @@ def opCompile (j : Json) : Except String Json := do
       ("trace", .arr (out.trace.map jCall).toArray)]
 end C
 
+/-! ### op: put / put2 (file writers) -/
+namespace Wr
+open Pysmi.Writer
+
+def fault (j : Json) : Except String Fault :=
+  match j with
+  | .str "none" => pure .none
+  | .str "error" => pure .error
+  | .str "soft" => pure .soft
+  | .arr #[.str "short", n] => do return .short (← n.getNat?)
+  | _ => throw "bad fault"
+
+def kind (j : Json) : Except String Kind :=
+  match j with
+  | .str "file" => pure .file
+  | .str "py" => pure .py
+  | _ => throw "bad kind"
+
+def content (j : Json) : Except String Content :=
+  match j with
+  | .str "absent" => pure .absent
+  | .str "old" => pure .old
+  | _ => throw "bad content"
+
+def jContent : Content → Json
+  | .absent => .str "absent"
+  | .old => .str "old"
+  | .data who w => .arr #[.str "data", who, w]
+
+def jOptContent : Option Content → Json
+  | none => .null
+  | some c => jContent c
+
+def jSys : Sys → String
+  | .makedirs => "makedirs" | .mkstemp => "mkstemp" | .write => "write" | .close => "close"
+  | .rename => "rename" | .unlink => "unlink" | .pycompile => "pycompile"
+
+def jRes : Res → String
+  | .ok => "ok" | .writerError => "writerError" | .osError => "osError"
+
+def jPC : PC → Json
+  | .done r => .str (jRes r)
+  | .start => .str "pc:start" | .mkstemp => .str "pc:mkstemp" | .write => .str "pc:write"
+  | .close => .str "pc:close" | .rename => .str "pc:rename" | .cleanup => .str "pc:cleanup"
+  | .compile => .str "pc:compile" | .rmmodule => .str "pc:rmmodule"
+
+def mkFS (j : Json) : Except String FS := do
+  return { dirExists := ← (← j.getObjVal? "dirExists").getBool?,
+           dest := ← content (← j.getObjVal? "dest"), tmp := fun _ => none }
+
+def opPut (j : Json) : Except String Json := do
+  let k ← kind (← j.getObjVal? "kind")
+  let len ← (← j.getObjVal? "len").getNat?
+  let pyc ← (← j.getObjVal? "pyCompile").getBool?
+  let dry ← (← j.getObjVal? "dryRun").getBool?
+  let fl ← getList fault (← j.getObjVal? "faults")
+  let fs ← mkFS j
+  let r := put k len pyc dry fl fs
+  return Json.mkObj [("res", .str (jRes r.1)), ("dest", jContent r.2.dest), ("tmp", jOptContent (r.2.tmp 0)),
+    ("dirExists", r.2.dirExists), ("calls", .arr (r.2.calls.map (fun c => Json.str (jSys c.2))).toArray)]
+
+def opPut2 (j : Json) : Except String Json := do
+  let k0 ← kind (← j.getObjVal? "k0")
+  let k1 ← kind (← j.getObjVal? "k1")
+  let l0 ← (← j.getObjVal? "l0").getNat?
+  let l1 ← (← j.getObjVal? "l1").getNat?
+  let fa ← getList fault (← j.getObjVal? "fa")
+  let fb ← getList fault (← j.getObjVal? "fb")
+  let sched ← getList (fun b => b.getBool?) (← j.getObjVal? "sched")
+  let fs ← mkFS j
+  let r := runTwo sched fa fb (mkW 0 k0 l0 false) (mkW 1 k1 l1 false) fs
+  return Json.mkObj [("a", jPC r.1.pc), ("b", jPC r.2.1.pc), ("dest", jContent r.2.2.dest),
+    ("tmp0", jOptContent (r.2.2.tmp 0)), ("tmp1", jOptContent (r.2.2.tmp 1)),
+    ("calls", .arr (r.2.2.calls.map (fun c => Json.arr #[c.1, .str (jSys c.2)])).toArray)]
+end Wr
+
+/-! ### op: borrow (AbstractBorrower.getData decision) -/
+open Pysmi.Borrower in
+def opBorrow (j : Json) : Except String Json := do
+  let flavour ← (← j.getObjVal? "flavour").getBool?
+  let g : OptVal := match j.getObjVal? "genTexts" with
+    | .ok (.bool b) => .bool b
+    | .ok .null => .none
+    | _ => .absent
+  let ownExts ← getList (fun x => x.getStr?) (← j.getObjVal? "ownExts")
+  let held ← getList (fun x => x.getStr?) (← j.getObjVal? "heldExts")   -- extensions under which the file exists
+  let reader : List String → Option String := fun exts => exts.find? (fun e => held.contains e)
+  match getData flavour ownExts reader g none with
+  | .notFound => return .str "notFound"
+  | .ok e => return Json.mkObj [("ok", .str e)]
+
+/-! ### op: searcher -/
+open Pysmi.Searcher in
+def opSearcher (j : Json) : Except String Json := do
+  let kind ← (← j.getObjVal? "kind").getStr?
+  let mtime ← (← j.getObjVal? "mtime").getInt?
+  let rebuild ← (← j.getObjVal? "rebuild").getBool?
+  let ents ← getList (fun p => do
+    match (← p.getArr?).toList with
+    | [k, .str "absent"] => return (← k.getStr?, Ent.absent)
+    | [k, .str "dir"] => return (← k.getStr?, Ent.dir)
+    | [k, .arr #[.str "file", t, h]] =>
+      let hdr ← match h with
+        | .null => pure none
+        | v => do pure (some (← v.getInt?))
+      return (← k.getStr?, Ent.file (← t.getInt?) hdr)
+    | _ => throw "bad entry") (← j.getObjVal? "entries")
+  let look : String → Ent := fun s => match ents.find? (·.1 == s) with
+    | some e => e.2
+    | none => .absent
+  let strs (n : String) := do getList (fun x => x.getStr?) (← j.getObjVal? n)
+  let a ← match kind with
+    | "any" => do pure (anyFile (← strs "exts") look mtime rebuild)
+    | "py" => do pure (pyFile (← strs "bytecode") (← strs "source") look mtime rebuild)
+    | "stub" => do pure (stub (← strs "names") (← (← j.getObjVal? "name").getStr?) mtime rebuild)
+    | _ => throw "bad searcher kind"
+  return .str (match a with | .notFound => "nf" | .notModified => "nm" | .returns => "ret")
+
 def handle (j : Json) : Except String Json := do
   let op ← (← j.getObjVal? "op").getStr?
   match op with
   | "index" => opIndex j
   | "compile" => C.opCompile j
+  | "put" => Wr.opPut j
+  | "borrow" => opBorrow j
+  | "searcher" => opSearcher j
+  | "put2" => Wr.opPut2 j
   | _ => throw s!"unknown op {op}"
 
 partial def loop (hin hout : IO.FS.Stream) : IO Unit := do
